@@ -104,7 +104,12 @@ def do_replay(prop, path):
     if u is None:
         print('unit no longer registered')
         return 3
-    nat = U.native_check(u, p['inputs'])
+    if p.get('history'):
+        keep = {}
+        U.native_check(u, p['history'][0], keep=keep)
+        nat = U.native_check(u, p['history'][1], obj=keep.get('obj'))
+    else:
+        nat = U.native_check(u, p['inputs'])
     print(json.dumps(nat, indent=1, default=str))
     return 1 if nat['status'] == 'violation' else 0
 
@@ -173,10 +178,19 @@ def run_property(prop, tier, seed, only=None, dump=None):
                 k = match_known(known, u.short, rf['native']['failed'][0])
                 if k:
                     known_hits.append((k, 'native ' + rf['native']['failed'][0]))
+                elif rf.get('history'):
+                    # the proof is about one call on an object in its declared state; the same function violates
+                    # its contract on an object left over from an earlier call (state carried between calls)
+                    path = write_replay(prop, u.short, dict(property=prop, unit=u.short, qualname=u.qualname,
+                                                            obligation=rf['native']['failed'][0], inputs=rf['inputs'],
+                                                            history=rf['history'], native=rf['native'],
+                                                            note='violated on the second call on the same object'))
+                    violations.append((path, ''))
                 else:
                     cross['disagreements'] += 1
                     path = write_replay(prop, u.short, dict(property=prop, unit=u.short, qualname=u.qualname,
                                                             obligation=rf['native']['failed'][0], inputs=rf['inputs'],
+                                                            history=rf.get('history'),
                                                             native=rf['native'], solver='all obligations discharged',
                                                             note='contract violated at run time although the proof '
                                                                  'went through: engine or model unsound'))
@@ -207,7 +221,8 @@ def run_property(prop, tier, seed, only=None, dump=None):
             known_hits.append((match_known(known, u.short, hit['native']['failed'][0]), hit['native']['failed'][0]))
             hit = None
         if hit is None and rf is not None and not match_known(known, u.short, rf['native']['failed'][0]):
-            hit = {'obligation': (names or ['?'])[0], 'inputs': rf['inputs'], 'native': rf['native'], 'sizes': 'random'}
+            hit = {'obligation': (names or ['?'])[0], 'inputs': rf['inputs'], 'native': rf['native'], 'sizes': 'random',
+                   'history': rf.get('history')}
         if hit is None and tier == 'thorough':
             rf2, t2 = U.random_falsify(u, seed + 1, 3000)
             if rf2 is not None and not match_known(known, u.short, rf2['native']['failed'][0]):
@@ -218,7 +233,7 @@ def run_property(prop, tier, seed, only=None, dump=None):
                                                     obligation=hit['obligation'], failing_obligations=failing_desc,
                                                     engine_error=res.error, inputs=hit['inputs'],
                                                     native=hit['native'], sizes=hit.get('sizes'),
-                                                    source=res.source))
+                                                    history=hit.get('history'), source=res.source))
             violations.append((path, ''))
             continue
         if res.error:
